@@ -57,8 +57,7 @@ TABLE_SELECTOR_RE = re.compile(
     r"(\[(?P<start_col>[^\]]+)\] *: *)?"
     r"(\[(?P<end_col>.+)\] *)?$")
 
-QUESTION_MARK_RE = re.compile(r'\?(?<!~)')
-STAR_RE = re.compile(r'\*(?<!~)')
+WILDCARD_TOKEN_RE = re.compile(r'~[?*~]|[?*]|[^?*~]+|~')
 
 MAX_COL = 16384
 MAX_ROW = 1048576
@@ -1026,11 +1025,26 @@ def handle_ifs(args, op_range=None):
 
 
 def build_wildcard_re(lookup_value):
-    regex = QUESTION_MARK_RE.sub('.', STAR_RE.sub('.*', lookup_value))
-    if regex != lookup_value:
+    # ? matches one character, * any run of characters, ~?, ~* and ~~ the
+    # character itself; everything else (incl. regex syntax) is literal text
+    regex = []
+    is_pattern = False
+    for token in WILDCARD_TOKEN_RE.findall(lookup_value.lower()):
+        if token == '?':
+            regex.append('.')
+        elif token == '*':
+            regex.append('.*')
+        elif len(token) == 2 and token[0] == '~' and token[1] in '?*~':
+            regex.append(re.escape(token[1]))
+        else:
+            regex.append(re.escape(token))
+            continue
+        is_pattern = True
+
+    if is_pattern:
         # this will be a regex match"""
-        compiled = re.compile(f'^{regex.lower()}$')
-        return lambda x: x is not None and compiled.match(x.lower()) is not None
+        compiled = re.compile(f"{''.join(regex)}\\Z", re.DOTALL)
+        return lambda x: isinstance(x, str) and compiled.match(x.lower()) is not None
     else:
         return None
 
